@@ -545,6 +545,14 @@ def rule_ord(ctx):
                  else '%s on the %s set can be applied to an edge that already exists: hashlink moves an existing element to the back, so iteration order becomes last-access order' % (c.qname, {'c': 'children', 'p': 'parents'}[op.enc]),
                  ctx.where(b, c.bb), props=P + ('C08',))
     R.floor('ORD-2', 're-linking operations on adjacency sets', n, 2, props=P)
+    # ORD-3-chain: nothing between the adjacency set and the consumer may change the order
+    ORDER_OK = {'borrow', 'get', 'into_iter', 'flat_map', 'map', 'iter', 'unwrap', 'contains_node', 'contains_key', 'call_once', 'call_mut', 'call', 'expect',
+                'new_debug', 'new', 'panic_fmt', 'filter_map', 'cloned', 'copied', 'as_ref', 'get_outgoing_edge_data', 'get_outgoing_edges'}
+    chain_fns = [F.body_by_path(G + 'get_outgoing_edge_data'), F.body_by_path(G + 'get_outgoing_edges'), getattr(ctx.roles, 'deps_from', None)]
+    for b in [x for x in chain_fns if x is not None]:
+        bad = sorted({c.name for x in F.with_closures(b) for c in x.calls.values() if c.name not in ORDER_OK and not x.blocks[c.bb]['cleanup']})
+        R.ob('ORD-3-chain', b.path, not bad, 'the edges are handed out in adjacency order (no re-ordering adaptor in the chain)' if not bad
+             else 'the iterator chain applies %s: dependencies may be validated out of creation order' % bad, ctx.where(b), props=('C02', 'C11', 'C16'))
     # ORD-3: the getters used for validation order read `children`
     for name in ('get_outgoing_edge_data', 'get_outgoing_edges'):
         b = F.body_by_path(G + name)
